@@ -67,9 +67,15 @@ def check_case(case):
     for entry, fn in (("claripy.constraint_to_si", claripy.constraint_to_si), ("backends.vsa.constraint_to_si", claripy.backends.vsa.constraint_to_si)):
         try:
             sat, pairs = fn(c)
-        except Exception as e:  # noqa: BLE001 - counted, see ASSUMPTIONS
+        except claripy.errors.ClaripyError as e:  # counted, see ASSUMPTIONS
             info["classes"].append(f"exception:{type(e).__name__}")
             info.setdefault("exceptions", []).append(exprcheck.exc_fingerprint(e))
+            continue
+        except Exception as e:  # noqa: BLE001 - an internal error is not an answer; with satisfying assignments it is a violation
+            info["classes"].append(f"exception:{type(e).__name__}")
+            info.setdefault("exceptions", []).append(exprcheck.exc_fingerprint(e))
+            if nsat:
+                fails.append((f"raises:{type(e).__name__}:{_shape(tree)}", {"tree": ir.pretty(tree), "entry": entry, "exc": repr(e)[:160], "satisfying_assignments": nsat}))
             continue
         if nsat and not sat:
             fails.append((f"unsat-claimed:{_shape(tree)}", {"tree": ir.pretty(tree), "entry": entry, "satisfying_assignments": nsat, "example": sp.assignment(int(np.flatnonzero(M)[0]))}))
@@ -280,6 +286,11 @@ def gen_case(draw):
         t = ("or", t, one())
     elif k == 2:
         t = ("not", t)
+    elif k == 3:
+        # (dis)equality between truth values: nothing the balancer can bound, but it has to survive it
+        t = (draw(st.sampled_from(("beq", "bne"))), t, draw(st.one_of(st.just(("bconst", False)), st.just(("bconst", True)), st.just(None))) or one())
+        if draw(st.booleans()):
+            t = ("or", t, one())
     return {"tree": t, "e2e": draw(st.integers(0, 3)) == 0}
 
 
